@@ -27,6 +27,8 @@ THEOREMS = [
     "Mesa.Viz.C20_distinct_locations_distinct_positions",
     "Mesa.Viz.C20_altair_one_row_per_agent",
     "Mesa.Viz.C20_altair_row_values",
+    "Mesa.Viz.C20_altair_chart_encoding",
+    "Mesa.Viz.C20_altair_uniform_portrayal_encoded",
     "Mesa.Viz.C20_layer_image_orientation",
     "Mesa.Viz.C20_layer_hex_orientation",
     "Mesa.Viz.C20_V8_ravel_refuted",
@@ -48,7 +50,7 @@ COUNTS = {"quick": 1600, "thorough": 60000}
 TRUSTED = [
     "matplotlib: Axes.scatter stores the x/y/s/c/marker/zorder/alpha/edgecolors/linewidths it is given in one PathCollection (read back through get_offsets/get_sizes/get_facecolors/get_edgecolors/get_linewidths/get_zorder/get_paths); slot i of a keyword array belongs to marker i (the model's `Group.drawn`); a marker whose alpha / edge colour / line width is the filled-in default (own colour's alpha, face colour, rcParams patch.linewidth) reads back like one drawn without the keyword; colour-name conversion, marker rendering, imshow(origin='lower') putting array row r at height r",
     "matplotlib, property layers: imshow(origin='lower') keeps the array, vmin / vmax / alpha / cmap it is given (read back through get_array, norm, get_alpha, get_cmap); a colormap maps level k/span to a colour of its own (the level behind a hexagon's colour is searched among the multiples of 1/span); Colorbar widens a range without extent by nonsingular(expander=0.1) (undone when read back) and does what it likes with an inverted range (not compared); the colour of a name (to_rgba)",
-    "Altair: Chart.to_dict() reports the rows given to alt.Data(values=...) unchanged",
+    "Altair: Chart.to_dict() reports the rows given to alt.Data(values=...), the encoding channels (x / y type, colour, size, tooltip fields) and the mark properties unchanged; what Vega-Lite renders from them (a nominal colour scale maps colour names to scheme colours) is not modelled",
     "solara/reacton: solara.render runs the component function and its effects once (used for SpaceMatplotlib, SpaceAltair, ModelCreator; the Axes / Chart are taken from the post_process hook)",
     "networkx spring_layout(seed=0) is deterministic; the model keeps a node's label for its layout position",
     "numpy boolean masking / np.unique / set() over the marker and z-order arrays (the model keeps the distinct values; the order of the scatter calls is not compared)",
@@ -64,8 +66,8 @@ RULE = ("40% space scenarios: one of 12 space classes (4 mesa.space grids, 3 dis
         "non-contiguous node labels and possibly no edges, Voronoi, 2 continuous spaces), sizes 1-5, 0-6 agents with several per cell, "
         "agents never placed, a pool of 0-4 portrayal dict *objects* shared between agents (keys color/size/marker/zorder, colours as names and as RGB(A) tuples — none / all / mixed —, the optional "
         "alpha/edgecolors/linewidths under an all/none/some policy, unsupported keys), interleaved place/move/remove/dict-rewrite/"
-        "re-portray ops and observations collect_agent_data / draw_space (Agg) / Altair _draw_grid / the solara components SpaceMatplotlib "
-        "and SpaceAltair / heap dump / property layers "
+        "re-portray ops and observations collect_agent_data / draw_space (Agg) / Altair _draw_grid (rows, encoded channels, x/y type, tooltip fields, default "
+        "mark size) / the solara components SpaceMatplotlib and SpaceAltair with the portrayal and with their default portrayals / heap dump / property layers "
         "(1-3 named layers, requests of 1-4 entries in any order incl. names the space has no layer for; colour or colormap or neither; "
         "alpha absent / 25 / 50 / 100 %; range automatic, one-sided, explicit incl. without extent, cutting the data and inverted; colour bar "
         "absent / on / off; constant layers; float and int layers; drawn repeatedly; on non-grid classes), including observations of the space without agents; "
@@ -125,9 +127,9 @@ def nontrivial(sc, obs):
         w = l.split()
         if w[0] in ("collect", "collectd") and re.match(r"ok n=([2-9]|\d\d)", o):
             return True
-        if w[0] in ("draw", "drawc") and sum(int(n) for n in re.findall(r" n=(\d+)", o)) >= 2:
+        if w[0] in ("draw", "drawc", "drawc0") and sum(int(n) for n in re.findall(r" n=(\d+)", o)) >= 2:
             return True
-        if w[0] in ("altair", "altairc") and o.count(" | ") >= 2:
+        if w[0] in ("altair", "altairc", "altairc0") and o.count(" | ") >= 2:
             return True
     if sc.lines[0] == "scenario params":
         return any(l.startswith("sig ") and len(l.split()) >= 4 for l in sc.lines)
@@ -147,12 +149,12 @@ def tags(sc, obs):
                 placed += 1
             if w[0] == "remove" and o == "ok":
                 placed -= 1
-            if w[0] in ("collect", "collectd", "draw", "drawc", "altair", "altairc"):
+            if w[0] in ("collect", "collectd", "draw", "drawc", "drawc0", "altair", "altairc", "altairc0"):
                 if placed == 0:
                     yield "branch:observe-empty-space"
                 if o.startswith("err"):
                     yield "result:" + o
-            if w[0] in ("draw", "drawc") and o.count(" | ") >= 2:
+            if w[0] in ("draw", "drawc", "drawc0") and o.count(" | ") >= 2:
                 yield "branch:several-scatter-groups"
             if w[0] in ("collect", "collectd") and "None" in o and o.startswith("ok"):
                 yield "branch:optional-key-for-some-agents"
